@@ -181,6 +181,21 @@ class _WrapperCache:
                     if node_user_references > 0:
                         continue
 
+                    # the text nodes that represent the element's text and tail may
+                    # be referenced while the element's wrapper isn't
+                    if any(
+                        getrefcount(text_node)
+                        - 1  # `getrefcount`
+                        - 1  # `node._data_node` / `node._tail_node`
+                        - 1  # `text_node`
+                        - (text_node._appended_text_node is not None)  # `_bound_to`
+                        for text_node in (
+                            getattr(node, "_data_node", None), node._tail_node
+                        )
+                        if text_node is not None
+                    ):
+                        continue
+
                     if isinstance(node, TagNode):
                         data_node = node._data_node
                         tail_node = node._tail_node
@@ -253,10 +268,20 @@ class _WrapperCache:
             skip = False
             tail_node = node._tail_node
 
+            # a text node that represents the element's tail or text may be
+            # referenced while the element's wrapper isn't, evicting the wrapper
+            # would detach that text node object from the tree
+            if getrefcount(tail_node) > 3 + (tail_node._appended_text_node is not None):
+                continue
+
             if isinstance(node, TagNode):
                 # data node is checked first, assuming that appended text nodes tend
                 # to be used in the depths of a tree
                 data_node = node._data_node
+                if getrefcount(data_node) > 3 + (
+                    data_node._appended_text_node is not None
+                ):
+                    continue
                 current = data_node._appended_text_node
                 while current is not None:
                     _next = current._appended_text_node
